@@ -180,11 +180,26 @@ Definition field_size (num : Z) (t : ty) (sz : Z) : Z :=
   if size_field_skipped sz then 0
   else (if is_ld t then sz + bb_varint_size sz else sz) + bb_varint_size (tag_of num t).
 
+(* SERIALIZED_SIZE_COMPLEXITY == TRIVIAL ("the size does not depend on the value"): float, double, aggregates of
+   TRIVIAL members, and - as the code is - smart pointers, which inherit the pointee's complexity (regenerated)
+   although a null pointer has size 0 *)
+Fixpoint trivial (t : ty) : bool :=
+  match t with
+  | TS KF32 | TS KF64 => true
+  | TPtr sh e => (if sh then sptr_inherits_complexity else uptr_inherits_complexity) =? 1 && trivial e
+  | TAgg fs => forallb (fun p => trivial (snd p)) fs
+  | _ => false
+  end.
+
 Fixpoint ssize (t : ty) (v : val) {struct t} : Z :=
   match t, v with
   | TS k, VInt z => sk_size k z
   | TStr, VStr b => Z.of_nat (length b)
-  | TVec e, VSeq l | TList e, VSeq l | TSet e, VSeq l | TArr _ e, VSeq l =>
+  | TVec e, VSeq l | TArr _ e, VSeq l =>
+      (* vector.h / array.h: TRIVIAL elements are not visited, size() * size of value[0] *)
+      if trivial e then Z.of_nat (length l) * packed_size e (ssize e (hd (VSeq []) l))
+      else sumZ (map (fun x => packed_size e (ssize e x)) l)
+  | TList e, VSeq l | TSet e, VSeq l =>
       sumZ (map (fun x => packed_size e (ssize e x)) l)
   | TMap k w, VSeq l =>
       sumZ (map (fun p => match p with
